@@ -743,20 +743,20 @@ func histProp(cases map[string]int, k Knobs) PropDef {
 }
 
 func init() {
-	register("C01", histProp(map[string]int{"quick": 1500, "thorough": 40000}, Knobs{
+	register("C01", histProp(map[string]int{"quick": 1500, "thorough": 150000}, Knobs{
 		Clients: [2]int{1, 4}, TCPClients: [2]int{0, 1}, Peers: [2]int{2, 6}, Steps: [2]int{15, 40}, V6: 35, Deny: 60,
 		TimeoutSets: defaultTimeouts, Lifetimes: defaultLifetimes, W: weights(map[string]int{"data": 10}), TCPAllocPct: 5, TCPRelayEvery: 12, Impostor: 35,
 	}))
-	register("C02", histProp(map[string]int{"quick": 1500, "thorough": 40000}, Knobs{
+	register("C02", histProp(map[string]int{"quick": 1500, "thorough": 150000}, Knobs{
 		Clients: [2]int{1, 4}, TCPClients: [2]int{0, 1}, Peers: [2]int{3, 6}, Steps: [2]int{15, 40}, V6: 35, Deny: 30,
 		TimeoutSets: defaultTimeouts, Lifetimes: defaultLifetimes, W: weights(map[string]int{"data": 10, "probe": 6}), TCPAllocPct: 5, TCPRelayEvery: 10,
 	}))
-	register("C06", histProp(map[string]int{"quick": 1200, "thorough": 20000}, Knobs{
+	register("C06", histProp(map[string]int{"quick": 1200, "thorough": 80000}, Knobs{
 		Clients: [2]int{1, 3}, TCPClients: [2]int{0, 1}, Peers: [2]int{2, 3}, Steps: [2]int{12, 30}, V6: 15,
 		TimeoutSets: [][3]time.Duration{{0, 0, 0}, {2 * time.Hour, 2 * time.Hour, 30 * time.Second}, {2 * time.Hour, 3 * time.Hour, 10 * time.Minute}, {90 * time.Minute, 2 * time.Hour, 45 * time.Minute}, {3 * time.Hour, 3 * time.Hour, 2 * time.Hour}},
 		Lifetimes:   defaultLifetimes, W: weights(map[string]int{"allocate": 5, "refresh": 8, "refresh0": 2, "probe": 10, "perm": 3, "chan": 2, "data": 3}), TCPAllocPct: 10,
 	}))
-	register("C07", histProp(map[string]int{"quick": 1200, "thorough": 20000}, Knobs{
+	register("C07", histProp(map[string]int{"quick": 1200, "thorough": 80000}, Knobs{
 		Clients: [2]int{1, 2}, Peers: [2]int{2, 5}, Steps: [2]int{15, 35}, V6: 15,
 		TimeoutSets: [][3]time.Duration{{0, 0, 4 * time.Hour}, {30 * time.Second, 2 * time.Minute, 4 * time.Hour}, {2 * time.Minute, 30 * time.Second, 4 * time.Hour}, {7 * time.Minute, 20 * time.Minute, 4 * time.Hour}, {20 * time.Minute, 7 * time.Minute, 4 * time.Hour}},
 		Lifetimes:   []int64{-1, 3599}, W: weights(map[string]int{"allocate": 1, "refresh": 2, "refresh0": 0, "perm": 8, "chan": 8, "probe": 12, "data": 3, "time": 2}),
